@@ -105,7 +105,7 @@ def read_ww3_station(filename_or_fileglob):
             spec_count += len(vals)
 
     spectra = np.array(spectra)
-    times = np.unique(date)
+    times = np.array(date)
     locs = np.unique(loc)
     lats = np.unique(lat)
     lons = np.unique(lon)
@@ -158,6 +158,7 @@ def read_ww3_station(filename_or_fileglob):
         data=lons, coords={attrs.SITENAME: locs}, dims=[attrs.SITENAME]
     )
 
+    dset = dset.sortby(attrs.TIMENAME)
     set_spec_attributes(dset)
     dset[attrs.SPECNAME].attrs.update(
         {"_units": "m^{2}.s.degree^{-1}", "_variable_name": "VaDens"}
